@@ -574,6 +574,7 @@ func c08AtomicSection(c *Ctx, all map[string][]*LockAnalysis) {
 	// blocks it fetched are reported by the later sync that succeeds (reporting them from the failed one reports
 	// them twice)
 	handlerExpiryRefreshed(c, "C08.L1-handler-kept-while-used")
+	handlerLookupCreateAtomic(c, "C08.L1-one-handler-per-publisher")
 	// "the most recent announcement is always acted on": an announcement the receiver refuses must not leave its CID
 	// in the duplicate filter, or the accepted announcement of the same head that follows is dropped without a sync
 	refusedLeavesNoTrace(c, "C08.L7-refused-announcement-leaves-no-trace")
@@ -680,4 +681,76 @@ func uncacheUnconditional(c *Ctx, rule string) {
 	if n == 0 {
 		c.Unk(rule, "dagsync › UncacheCid", token.NoPos, "no call found")
 	}
+}
+
+// handlerLookupCreateAtomic: "is there a handler for this publisher? if not,
+// make one and register it" is one critical section under the exclusive
+// handlers lock. Looked up under one lock and registered under another, two
+// first syncs of a publisher each create a handler — two mutexes, two count
+// hooks for one publisher.
+func handlerLookupCreateAtomic(c *Ctx, rule string) {
+	p := c.pkg(dagsyncPkg)
+	las := c.LockAnalyses(dagsyncPkg, []string{"Subscriber.syncSem"})
+	n := 0
+	for _, f := range c.Funcs(dagsyncPkg) {
+		for _, a := range las[f.Name] {
+			var lookups, updates []ast.Node
+			ownInspect(a.Body, func(nd ast.Node) bool {
+				isHandlers := func(e ast.Expr) bool {
+					ix, ok := ast.Unparen(e).(*ast.IndexExpr)
+					if !ok {
+						return false
+					}
+					sel, ok := ast.Unparen(ix.X).(*ast.SelectorExpr)
+					if !ok {
+						return false
+					}
+					v, ok := p.TypesInfo.ObjectOf(sel.Sel).(*types.Var)
+					return ok && v.IsField() && canonField(v) == "handlers"
+				}
+				if as, ok := nd.(*ast.AssignStmt); ok {
+					for _, l := range as.Lhs {
+						if isHandlers(l) {
+							updates = append(updates, as)
+						}
+					}
+					if len(as.Lhs) == 2 && len(as.Rhs) == 1 && isHandlers(as.Rhs[0]) {
+						lookups = append(lookups, as)
+					}
+				}
+				return true
+			})
+			if len(lookups) == 0 || len(updates) == 0 {
+				continue
+			}
+			n++
+			excl := func(nd ast.Node) bool {
+				h := a.HeldAt[nd]
+				for k := range h {
+					if strings.HasSuffix(k, ".handlersMutex") && !strings.HasPrefix(k, "R:") {
+						return true
+					}
+				}
+				return false
+			}
+			ok := true
+			for _, l := range lookups {
+				ok = ok && excl(l)
+			}
+			for _, u := range updates {
+				ok = ok && excl(u)
+			}
+			nAcq := 0
+			for _, acq := range a.Acquires {
+				if strings.HasSuffix(acq.lock, ".handlersMutex") {
+					nAcq++
+				}
+			}
+			c.Check(ok && nAcq == 1, rule, a.Name+" › lookup and registration in one critical section", lookups[0].Pos(), "the handler map is looked up and extended under one hold of the exclusive handlers lock", "the handler lookup and the registration of a new handler are not one critical section under the exclusive lock (looked up under a read lock or the lock is released in between): two concurrent first syncs of a publisher each create a handler, so its syncs are no longer serialised and its hooks and counts are mixed up")
+		}
+	}
+	if n == 0 {
+		c.Unk(rule, "dagsync › handler lookup-or-create", token.NoPos, "not found")
+	}
+	c.Floor(rule, 1)
 }
